@@ -189,6 +189,10 @@ def _ops():
         "mul": (anyr, lambda x: x * 0.7),
         "div": (anyr, lambda x: x / 2.5),
         "rdiv": (anyr, lambda x: 1.5 / (x * x + 1.0)),
+        # complex intermediates between real input and real output (dtype conversions)
+        "complex-abs": (anyr, lambda x: jnp.abs(jax.lax.complex(x, 0.5 * x * x + 1.0))),
+        "exp-i-real": (anyr, lambda x: jnp.real(jnp.exp(1j * x)) + jnp.imag(jnp.exp(1j * x))),
+        "fft-abs": (nd(1), lambda x: jnp.abs(jnp.fft.fft(x)) ** 2),
         # transcendental
         "sin": (anyr, jnp.sin),
         "exp": (anyr, lambda x: jnp.exp(0.5 * x)),
